@@ -96,6 +96,8 @@ def coef_value(kind, c):
     if kind == "i":
         return int(c)
     if kind == "f":
+        if isinstance(c, list):   # [c, s]: c/4 * 2**-s, exact in binary floating point (tiny magnitudes)
+            return c[0] / 4.0 * 2.0 ** -int(c[1])
         return c / 4.0
     return complex(c[0] / 2.0, c[1] / 2.0)
 
@@ -106,6 +108,8 @@ def coef_exact(kind, c):
     if kind == "i":
         return int(c)
     if kind == "f":
+        if isinstance(c, list):
+            return simplify(Fraction(int(c[0]), 4 * 2 ** int(c[1])))
         return simplify(Fraction(int(c), 4))
     return simplify(GQ(Fraction(int(c[0]), 2), Fraction(int(c[1]), 2)))
 
